@@ -455,7 +455,7 @@ def candidates(p, rng):
             out.append(("split_write", d, lambda pc=pc: S.split_write(p, pc)))
             out.append(("commute_expr", d, lambda pc=pc: S.commute_expr(p, [pc.rhs()])))
             out.append(("stage_mem", d, lambda pc=pc, n=n: S.stage_mem(p, pc, "%s[0:16]" % n.name.name(), "stg")))
-        out.append(("add_loop", d, lambda pc=pc: S.add_loop(p, pc, "al", 2, guard=True)))
+        out.append(("add_loop:guard", d, lambda pc=pc: S.add_loop(p, pc, "al", 2, guard=True)))
         out.append(("add_loop:noguard", d, lambda pc=pc: S.add_loop(p, pc, "al", 2, guard=False)))
         out.append(("specialize", d, lambda pc=pc: S.specialize(p, pc, ["n > 4"])))
         if i + 1 < len(sibs):
@@ -567,8 +567,8 @@ def check_forward(ck, src_proc, dst_proc, chain_desc, replay, stats, cursors=Non
                         empty = "empty-"
                 except Exception:
                     pass
-            key, what = "api:%s:%s%s:%s" % (kind, empty, type(ex).__name__, chain_desc), \
-                "forward raised %s: %s" % (type(ex).__name__, str(ex)[:200])
+            key, what = "api:%s:%s%s@%s:%s" % (kind, empty, type(ex).__name__, raise_site(ex), chain_desc), \
+                "forward raised %s at %s: %s" % (type(ex).__name__, raise_site(ex, True), str(ex)[:200])
         if key is None:
             stats["ok"] = stats.get("ok", 0) + 1
             fi = f._impl
@@ -624,6 +624,22 @@ def check_forward(ck, src_proc, dst_proc, chain_desc, replay, stats, cursors=Non
             rp = dict(replay)
             rp["cursor"] = common.sexp(I.cursor_sexp(c))
             ck.violation(key, rp, what)
+
+
+def raise_site(ex, full=False):
+    """function (and line) of the innermost frame that raised: distinguishes e.g. the asserts of
+    Block._forward_move (``forward``) from lift_cursor's ``assert len(impl) > 0``"""
+    tb = ex.__traceback__
+    last = None
+    while tb is not None:
+        last = tb
+        tb = tb.tb_next
+    if last is None:
+        return "?"
+    co = last.tb_frame.f_code
+    if full:
+        return "%s:%d (%s)" % (co.co_filename.split("/")[-1], last.tb_lineno, co.co_name)
+    return co.co_name
 
 
 def _s(o):
